@@ -145,7 +145,7 @@ struct Net {
 	agent_owner: usize,
 	agent_bc: Option<&'static TestBroadcaster>,
 	commits: [Vec<CommitInfo>; 2],
-	commit_logged: bool,
+	commit_logged: Option<Txid>,
 	confirmed_commit: Option<(usize, usize)>,
 	pending: Vec<Pending>,
 	last_state: String,
@@ -323,17 +323,26 @@ impl Net {
 		}
 	}
 
-	fn send(&mut self, src: usize, amt: u64) -> bool {
+	/// `parts` > 1: a multi-part payment all of whose parts go over the one channel -- several pending
+	/// HTLCs with the same payment hash, of the same or different amounts (`vary`) and expiries (`stagger`).
+	fn send(&mut self, src: usize, amt: u64, parts: usize, vary: bool, stagger: u32) -> bool {
 		let dst = 1 - src;
-		let hops = vec![RouteHop {
-			pubkey: self.nodes[dst].node.get_our_node_id(),
-			node_features: NodeFeatures::from_le_bytes(self.nodes[dst].node.node_features().le_flags().to_vec()),
-			short_channel_id: self.scid,
-			channel_features: ChannelFeatures::empty(),
-			fee_msat: amt,
-			cltv_expiry_delta: TEST_FINAL_CLTV,
-			maybe_announced_channel: true,
-		}];
+		let mut paths = Vec::new();
+		let mut total = 0u64;
+		for k in 0..parts.max(1) {
+			let a = if vary && k > 0 { amt * (3 + k as u64) / (5 + k as u64) } else { amt };
+			total += a;
+			paths.push(Path { hops: vec![RouteHop {
+				pubkey: self.nodes[dst].node.get_our_node_id(),
+				node_features: NodeFeatures::from_le_bytes(self.nodes[dst].node.node_features().le_flags().to_vec()),
+				short_channel_id: self.scid,
+				channel_features: ChannelFeatures::empty(),
+				fee_msat: a,
+				cltv_expiry_delta: TEST_FINAL_CLTV + stagger * k as u32,
+				maybe_announced_channel: true,
+			}], blinded_tail: None });
+		}
+		let amt = total;
 		let mut pre = [0u8; 32];
 		let cnt = self.pays.len() as u64 + 1;
 		pre[..8].copy_from_slice(&cnt.to_be_bytes());
@@ -347,7 +356,7 @@ impl Net {
 		};
 		let route_params = RouteParameters::from_payment_params_and_value(
 			PaymentParameters::from_node_id(self.nodes[dst].node.get_our_node_id(), TEST_FINAL_CLTV), amt);
-		let route = Route { paths: vec![Path { hops, blinded_tail: None }], route_params };
+		let route = Route { paths, route_params };
 		let res = self.nodes[src].node.send_payment_with_route(route, hash, RecipientOnionFields::secret_only(secret, amt), PaymentId(hash.0));
 		self.pays.push(Pay { preimage, hash, dst });
 		self.drain_msgs();
@@ -372,7 +381,7 @@ impl Net {
 			"pay" => {
 				let src = op["from"].as_u64().unwrap_or(0) as usize % 2;
 				let amt = self.resolve_amount(&op["amt"], rng);
-				did = self.send(src, amt);
+				did = self.send(src, amt, op["parts"].as_u64().unwrap_or(1) as usize, op["vary"].as_bool().unwrap_or(false), op["stagger"].as_u64().unwrap_or(0) as u32);
 				if op["deliver"].as_bool().unwrap_or(true) { self.deliver(usize::MAX); }
 			},
 			"claim" | "fail" => {
@@ -913,7 +922,7 @@ impl Net {
 		let prev = self.tip_hash();
 		// a confirmed commitment transaction is described once, when it confirms
 		for tx in txs.iter() {
-			if tx.input.iter().any(|i| i.previous_output == self.funding) && !self.commit_logged {
+			if tx.input.iter().any(|i| i.previous_output == self.funding) && self.commit_logged != Some(tx.compute_txid()) {
 				let txid = tx.compute_txid();
 				let mut found = None;
 				for o in 0..2 {
@@ -936,7 +945,7 @@ impl Net {
 					let id = self.txi(&txid);
 					self.ev(json!({"ev":"commit_unknown","tx":id}));
 				}
-				self.commit_logged = true;
+				self.commit_logged = Some(txid);
 			}
 		}
 		// (blocks mined after a reorganisation differ from the ones they replace)
@@ -1469,7 +1478,9 @@ impl Net {
 				let copy = match self.monitor_copy(owner, num) { Some(m) => m, None => return false };
 				let txs = copy.unsafe_get_latest_holder_commitment_txn(&self.nodes[owner].logger);
 				if (num as usize) >= self.commits[owner].len() || txs[0].compute_txid() != self.commits[owner][num as usize].txid { return false; }
-				if prev { self.live = vec![1 - owner]; self.frozen = vec![owner]; } else { self.live = vec![0, 1]; self.frozen = vec![]; }
+				// (`owner_live`: the holder of the previous, still unrevoked commitment is a node under test
+				//  too -- its own earlier broadcast confirms after it has moved on to the next state)
+				if prev && !c["owner_live"].as_bool().unwrap_or(false) { self.live = vec![1 - owner]; self.frozen = vec![owner]; } else { self.live = vec![0, 1]; self.frozen = vec![]; }
 				self.disconnect();
 				self.ev(json!({"ev":"open","kind": if prev {"cp_previous"} else {"cp_current"},"chan_type":self.chan_type,"value":value,"live":self.live,"owner":owner,"k":num,"n_revoked":self.revoked[owner],
 					"delays":delays,"styles":styles,"h":h0,"anti_reorg":6,"est":est}));
@@ -1485,6 +1496,11 @@ impl Net {
 					"delays":delays,"styles":styles,"h":h0,"anti_reorg":6,"est":est}));
 				let peer = self.nodes[1 - owner].node.get_our_node_id();
 				if self.nodes[owner].node.force_close_broadcasting_latest_txn(&self.chan_id, &peer, "closing".to_string()).is_err() { return false; }
+				if c["both"].as_bool().unwrap_or(false) {
+					// both sides go to chain at the same time: two competing commitment transactions
+					let me = self.nodes[owner].node.get_our_node_id();
+					let _ = self.nodes[1 - owner].node.force_close_broadcasting_latest_txn(&self.chan_id, &me, "closing".to_string());
+				}
 				if deliver_error {
 					self.drain_msgs();
 					self.deliver(usize::MAX);
@@ -1610,7 +1626,7 @@ fn build_net(run: u64, cfg: &Value) -> Net {
 		holder_num: [0, 0], revoked: [0, 0], snaps: [HashMap::new(), HashMap::new()], known: [HashSet::new(), HashSet::new()], mark: None,
 		outs: HashMap::new(), conf: HashMap::new(), spent: HashMap::new(), ids: HashMap::new(), mempool: Vec::new(),
 		funding: OutPoint { txid: ftxid, vout }, live: vec![0, 1], frozen: vec![], agent: None, agent_owner: 0, agent_bc: None,
-		commits: [Vec::new(), Vec::new()], commit_logged: false, confirmed_commit: None, pending: Vec::new(), last_state: String::new(),
+		commits: [Vec::new(), Vec::new()], commit_logged: None, confirmed_commit: None, pending: Vec::new(), last_state: String::new(),
 		idle_from: None, executed: 0, skipped: 0, swept: [0, 0], refused: [false, false], jump_from: None, mined: Vec::new(), fork: 0, hwm: 0,
 		agent_descs: Vec::new(), agent_manual: cfg["agent_manual"].as_bool().unwrap_or(false), fee_utxos, fee_next: 0, next_shape: None,
 		txmap: HashMap::new(), open_h: 0, rb_tick: 0, in_reorg: false,
@@ -1980,7 +1996,130 @@ fn honest_unwind_script(rng: &mut StdRng) -> Value {
 		"history":history,"close":close,"chain":chain,"family":"honest_unwind"})
 }
 
+fn std_cfg(rng: &mut StdRng, chan_type: &str) -> Value {
+	json!({"chan_type":chan_type,"value":1_000_000,"push":([400_000_000u64, 500_000_000][rng.gen_range(0..2)]),
+		"feerate":([253u32, 253, 1000][rng.gen_range(0..3)]),"style":[rng.gen_range(0..11), rng.gen_range(0..11)]})
+}
+
+/// Several pending HTLCs with one payment hash (parts of a multi-part payment over the one channel; same
+/// or different amounts and expiries, either direction), every kind of close, the preimage known before
+/// the close or learnt some blocks after the commitment confirmed.
+fn dup_hash_script(rng: &mut StdRng) -> Value {
+	let types = ["static", "anchors", "zerofee"];
+	let mut history: Vec<Value> = Vec::new();
+	let mut multi: Vec<(usize, usize)> = Vec::new(); // (payment, receiver)
+	let npay = rng.gen_range(1..=3usize);
+	for k in 0..npay {
+		let from = rng.gen_range(0..2usize);
+		if k == 0 || rng.gen_bool(0.4) {
+			history.push(json!({"op":"pay","from":from,"amt":(["big", "small", "small"][rng.gen_range(0..3)]),"parts":rng.gen_range(2..=3),"vary":rng.gen_bool(0.5),"stagger":([0u32, 0, 3][rng.gen_range(0..3)])}));
+			multi.push((k, 1 - from));
+		} else {
+			history.push(json!({"op":"pay","from":from,"amt":(["big", "small"][rng.gen_range(0..2)])}));
+		}
+	}
+	let (pick, recv) = multi[rng.gen_range(0..multi.len())];
+	let early = rng.gen_bool(0.3);
+	if early { history.push(json!({"op":"claim","pay":pick,"deliver":false})); }
+	// whose commitment confirms: mostly the payer's (the receiver claims on a counterparty commitment)
+	let owner = if rng.gen_bool(0.7) { 1 - recv } else { recv };
+	let r = rng.gen_range(0..100);
+	let close = if r < 60 { json!({"kind":"counterparty","owner":owner,"which":"current"}) }
+		else if r < 85 { json!({"kind":"force","node":owner,"deliver_error":false}) }
+		else { json!({"kind":"force","node":owner,"deliver_error":false,"both":true}) };
+	let mut chain: Vec<Value> = vec![json!({"op":"mine","who":[owner, HARNESS],"n":1,"prefer":"old"})];
+	if !early {
+		let k = rng.gen_range(0..4u64);
+		if k > 0 { chain.push(json!({"op":"mine","who":"none","n":k})); }
+		chain.push(json!({"op":"preimage","pay":pick}));
+	}
+	for _ in 0..rng.gen_range(0..3) {
+		let r = rng.gen_range(0..100);
+		if r < 30 { chain.push(json!({"op":"mine","who":"all","prefer": if rng.gen_bool(0.5) {"new"} else {"old"}})); }
+		else if r < 50 { chain.push(json!({"op":"mine","who":"none","n":rng.gen_range(1..6)})); }
+		else if r < 60 { chain.push(json!({"op":"reload","node":recv})); }
+		else if r < 75 { chain.push(json!({"op":"rebroadcast","node":recv})); }
+		else if r < 85 && multi.len() > 1 { chain.push(json!({"op":"preimage","pay":multi[rng.gen_range(0..multi.len())].0})); }
+		else { chain.push(json!({"op":"mine","who":[recv, HARNESS]})); }
+	}
+	chain.push(json!({"op":"settle"}));
+	let ct = types[rng.gen_range(0..3)];
+	json!({"cfg":std_cfg(rng, ct),"history":history,"close":close,"chain":chain,"family":"dup_hash"})
+}
+
+/// Both sides go to chain; one commitment confirms (with whatever claims follow), is reorganised out, and
+/// the competing commitment confirms instead; several outbound HTLCs of one expiry (their timeout claims
+/// are aggregated and parked until the expiry); the chain then advances past the expiry.
+fn competing_commitments_script(rng: &mut StdRng) -> Value {
+	let types = ["static", "anchors", "zerofee"];
+	let payer = rng.gen_range(0..2usize);
+	let mut history: Vec<Value> = Vec::new();
+	for _ in 0..rng.gen_range(2..=3) { history.push(json!({"op":"pay","from":payer,"amt":(["big", "small"][rng.gen_range(0..2)])})); }
+	if rng.gen_bool(0.4) { history.push(json!({"op":"pay","from":1 - payer,"amt":"big"})); }
+	if rng.gen_bool(0.3) { history.push(json!({"op":"claim","pay":0,"deliver":false})); }
+	let first = rng.gen_range(0..2usize);
+	let second = 1 - first;
+	let close = json!({"kind":"force","node":first,"deliver_error":false,"both":true});
+	let mut chain: Vec<Value> = vec![json!({"op":"mine","who":[first],"n":1,"prefer":"old"})];
+	if rng.gen_bool(0.5) { chain.push(json!({"op":"mine","who": if rng.gen_bool(0.5) { json!("none") } else { json!([first]) },"n":rng.gen_range(1..4)})); }
+	chain.push(json!({"op":"unwind","target":"commit","extra":rng.gen_range(0..2),"keep":rng.gen_bool(0.5)}));
+	if rng.gen_bool(0.3) { chain.push(json!({"op":"mine","who":"none","n":rng.gen_range(1..3)})); }
+	chain.push(json!({"op":"mine","who":[second],"n":1,"prefer":"old"}));
+	if rng.gen_bool(0.3) { chain.push(json!({"op":"reload","node":rng.gen_range(0..2)})); }
+	if rng.gen_bool(0.3) { for n in 0..2 { chain.push(json!({"op":"rebroadcast","node":n})); } }
+	chain.push(json!({"op":"to_expiry","htlc":rng.gen_range(0..3),"who": if rng.gen_bool(0.6) { json!("none") } else { json!("all") },"off":rng.gen_range(0..3)}));
+	for _ in 0..rng.gen_range(0..3) {
+		if rng.gen_bool(0.5) { chain.push(json!({"op":"mine","who":"none","n":rng.gen_range(1..4)})); }
+		else { for n in 0..2 { chain.push(json!({"op":"rebroadcast","node":n})); } }
+	}
+	chain.push(json!({"op":"settle"}));
+	let ct = types[rng.gen_range(0..3)];
+	json!({"cfg":std_cfg(rng, ct),"history":history,"close":close,"chain":chain,"family":"competing_commitments"})
+}
+
+/// The previous, not yet revoked commitment of a node under test confirms after the node has accepted the
+/// next one (its monitor holds both); the preimage of an inbound HTLC arrives only afterwards (or was
+/// known before); the HTLC is in both commitments or only in the newer one.
+fn prev_holder_script(rng: &mut StdRng) -> Value {
+	let types = ["static", "anchors", "zerofee"];
+	let owner = rng.gen_range(0..2usize);
+	let mut history: Vec<Value> = Vec::new();
+	let n_in = rng.gen_range(1..=2usize);
+	for _ in 0..n_in { history.push(json!({"op":"pay","from":1 - owner,"amt":(["big", "small"][rng.gen_range(0..2)])})); }
+	if rng.gen_bool(0.3) { history.push(json!({"op":"pay","from":owner,"amt":"big"})); }
+	let early = rng.gen_bool(0.25);
+	if early { history.push(json!({"op":"claim","pay":0,"deliver":false})); }
+	// one more update that stops right after `owner` has received the new commitment_signed
+	let from = if early { 1 - owner } else { rng.gen_range(0..2usize) };
+	history.push(json!({"op":"deliver_all"}));
+	let last = history.iter().filter(|o| o["op"] == "pay").count();
+	history.push(json!({"op":"pay","from":from,"amt":(["big", "small", "dust"][rng.gen_range(0..3)]),"deliver":false}));
+	history.push(json!({"op":"deliver","n": if owner == 1 - from { 2 } else { 4 }}));
+	let which = if rng.gen_bool(0.8) { "previous" } else { "current" };
+	let close = json!({"kind":"counterparty","owner":owner,"which":which,"owner_live":true});
+	let mut chain: Vec<Value> = vec![json!({"op":"mine","who":"all","n":1,"prefer":"old"})];
+	let k = rng.gen_range(0..4u64);
+	if k > 0 { chain.push(json!({"op":"mine","who":"none","n":k})); }
+	if !early { chain.push(json!({"op":"preimage","pay":rng.gen_range(0..n_in)})); }
+	// (an HTLC that is only in the newer commitment: its preimage is of no use on chain)
+	if from == 1 - owner && rng.gen_bool(0.3) { chain.push(json!({"op":"preimage","pay":last})); }
+	for _ in 0..rng.gen_range(0..3) {
+		let r = rng.gen_range(0..100);
+		if r < 35 { chain.push(json!({"op":"mine","who":"all","prefer": if rng.gen_bool(0.5) {"new"} else {"old"}})); }
+		else if r < 55 { chain.push(json!({"op":"mine","who":"none","n":rng.gen_range(1..6)})); }
+		else if r < 70 { chain.push(json!({"op":"reload","node":owner})); }
+		else if r < 85 { chain.push(json!({"op":"rebroadcast","node":owner})); }
+		else if n_in > 1 { chain.push(json!({"op":"preimage","pay":1})); }
+	}
+	chain.push(json!({"op":"settle"}));
+	let ct = types[rng.gen_range(0..3)];
+	json!({"cfg":std_cfg(rng, ct),"history":history,"close":close,"chain":chain,"family":"prev_holder"})
+}
+
 fn random_script(rng: &mut StdRng, profile: &str) -> Value {
+	if profile == "c07d" { return dup_hash_script(rng); }
+	if profile == "c07x" { return competing_commitments_script(rng); }
+	if profile == "c07p" { return prev_holder_script(rng); }
 	if profile == "c07u" { return honest_unwind_script(rng); }
 	if profile == "c07r" { return late_preimage_reorg_script(rng); }
 	if profile == "c06t" { return csv_race_script(rng); }
